@@ -124,6 +124,12 @@ STMTS = [
 ]
 
 MOD_ITEMS_OTHER = [
+    # brace-bodied items whose header ends in a comma (a where clause with a trailing comma, as rustfmt writes it) or contains a
+    # brace-delimited const argument
+    "fn private_where<T>(t: T) -> T where T: Clone, { t }",
+    "pub struct WhereS<T> where T: Clone, { pub t: T }",
+    "impl<T> WhereS<T> where T: Clone, { pub fn in_impl_w(&self) {} }",
+    "struct ArrN<const N: usize>; impl ArrN<{ 1 + 1 }> { fn in_arr(&self) {} }",
     "use super::*;",
     "use ::core::{fmt::{self, Debug}, marker::PhantomData as PD};",
     "pub struct Unit;",
